@@ -4,14 +4,14 @@ from . import build, driver
 def main():
     ap = argparse.ArgumentParser(); ap.add_argument('harness'); ap.add_argument('-D', action='append', default=[]); ap.add_argument('-j', type=int, default=16)
     ap.add_argument('--out', default='/verif/build/dev'); ap.add_argument('--timeout', type=float, default=0); ap.add_argument('--json')
-    ap.add_argument('--no-overflow', action='store_true')
+    ap.add_argument('--no-overflow', action='store_true'); ap.add_argument('--solver-timeout-ms', type=int, default=20000)
     a = ap.parse_args()
     t = time.time(); os.makedirs(a.out, exist_ok=True)
     if 'oracle_dfa.h' not in os.listdir(a.out):
         build.sh(['python3', os.path.join(build.VERIF, 'oracle', 'abnf2dfa.py'), os.path.join(build.REPO, 'doc', 'rfc3986_grammar_only.txt'), os.path.join(a.out, 'oracle_dfa.h')])
     final, writable = build.build_module(a.out, a.harness, a.D)
     print('build %.1fs' % (time.time() - t))
-    opts = {'overflow_check': not a.no_overflow}
+    opts = {'overflow_check': not a.no_overflow, 'solver_timeout_ms': a.solver_timeout_ms}
     if a.timeout: opts['deadline'] = time.time() + a.timeout
     r = driver.run_single(final, writable, opts) if a.j <= 1 else driver.run_parallel(final, writable, opts, a.j)
     if a.json: json.dump(r, open(a.json, 'w'), indent=1, default=str)
